@@ -6,7 +6,7 @@ from vfw.props import common, parsecase
 PROPERTY = "C02"
 LEVEL = "exploration"
 RULE = (
-    "case = (text, dialect[, templater]) from every dialect fixture, 3 seeded mutants per fixture, hostile strings (every 3rd x 28 dialects) "
+    "case = (text, dialect[, templater]) from every dialect fixture, 2 seeded mutants per fixture, hostile strings (every 3rd x 28 dialects) "
     "and generated lintable Jinja/placeholder templates; the tokens handed to Parser.parse are captured by a wrapper and compared with the "
     "returned tree's leaves (text, source and rendered positions, order, multiplicity); distinct = content hash; non-trivial = tree with >= 3 leaves"
 )
@@ -18,7 +18,7 @@ FOUR = ("ansi", "postgres", "tsql", "bigquery")
 
 
 def universe():
-    u = common.fx_cases(20000) + common.mx_cases(3, 8000) + common.hs_cases(every=3)
+    u = common.fx_cases(20000) + common.mx_cases(2, 6000) + common.hs_cases(every=3)
     u += common.jj_cases(600, "lintable", FOUR) + common.jj_cases(400, "hostile", FOUR) + common.ph_cases(240, True) + common.py_cases(120, True)
     return u
 
